@@ -296,4 +296,35 @@ PROPS = {
             "the first dangling reference, poisoning makes stale uses change the outcome",
         ],
     ),
+
+    "C11": dict(
+        prop_file="Properties/C11.v",
+        check_module="C11Check",
+        theorems={t: [] for t in ["C11_hash_map_roundtrip", "C11_handle_table_roundtrip"]},
+        n_quick=160, n_thorough=1500,
+        gates=["hm.Json", "hm.Cbor", "hm.Bincode", "ht.Json", "ht.Cbor", "ht.Bincode", "rt.module.Json",
+               "rt.module.Yaml", "rt.program.Json", "rt.program.Cbor", "rt.program.Bincode", "rt.value.Json",
+               "rt.value.Cbor", "rt.value.Bincode"],
+        rule="(a) CaoHashMap<i64,i64> and HandleTable<i64> with 0..130 entries (sizes around powers of two and the "
+             "load thresholds, some after removals) through JSON / CBOR / bincode: the entries in serialization "
+             "order, the size hint the format reports, and the decoded map's iteration order and capacity are "
+             "compared with the Coq model of the deserializer, and decoded = original as maps; (b) every program "
+             "of the library: source module through JSON and YAML then compiled = compiled original (bytecode, "
+             "data, sorted labels / variables / trace); compiled program through JSON / CBOR / bincode: fields "
+             "equal and same outcome and globals when run; (c) random values (nil, boundary ints, reals incl. "
+             "-0.0 / subnormal / max, unicode and escaped strings, nested ordered tables) VM -> owned -> format -> "
+             "owned -> second VM -> owned: deep equal with table order; non-trivial = map cases with > 1 entry, all "
+             "round-trip cases; distinct = distinct case term",
+        trusted_base=COMMON_TB + [
+            "serde derive output and the format crates (serde_json, serde_yaml, ciborium, bincode) are treated as "
+            "an identity on the serde data model: exercised by the round-trip stream, not modelled",
+            "modelled, not verified: collections/hash_map/serde_impl.rs and collections/handle_table/serde_impl.rs "
+            "(serialize in slot order; deserialize = with_capacity(power of two from the size hint or 128) + insert)"],
+        assumptions=[
+            "round trips (b) and (c) are judged natively by the harness (field-wise comparison, run outcome) and "
+            "passed through the checker as verdict cases; there is no theorem about program equivalence or "
+            "OwnedValue conversion yet",
+            "the program stream is the hand-written library until the random module generator is merged",
+        ],
+    ),
 }
